@@ -76,7 +76,9 @@ def run(ctx):
         return ("pmsort/%s/%s/result" % ("stable" if e.get("stable") else "unstable", "sampling" if e.get("mwmsa") == 0 else "exact"),
                 "%sparallel_mergesort (n=%d, threads=%s, %s splitting) did not produce a sorted permutation%s" %
                 ("stable_" if e.get("stable") else "", len(e.get("keys", [])), e.get("threads"), "sampling" if e.get("mwmsa") == 0 else "exact", " in stable order" if e.get("stable") else ""))
-    validate_traces(ctx, SD, "Trace_Sort", "Trace_Sort.cfg", tr, classify, shards=NCPU, max_rejects=20)
+    # implementation level first (phase discipline of the recorded array accesses as in PMergesortI); what it rejects but the property-level
+    # Trace_Sort accepts is DRIFT, not a violation
+    validate_traces(ctx, SD, "Trace_SortI", "Trace_SortI.cfg", tr, classify, shards=NCPU, max_rejects=20, property_level=(SD, "Trace_Sort", "Trace_Sort.cfg"))
     ctx.assumptions += ["element accesses to the input range are instrumented for the shim's happens-before check; temporaries are heap blocks and are covered by the "
                         "TSan real-thread build and by the adversarial schedules (a missing barrier lets a thread read unsorted / unallocated temporaries)",
                         "the shim executes the barrier's mutex / condition variable sequentially consistently"]
